@@ -3,6 +3,7 @@
 -/
 import TjdModel.SExp
 import TjdModel.Basic
+import TjdModel.Agg.AsAggregator
 import TjdModel.Autojac.Typing
 import TjdModel.Autojac.Pipeline
 import TjdModel.Autojac.Prog
@@ -118,6 +119,14 @@ def parseAgg : List SExp → Option (Mat Rat → Except Err (Vec Rat))
         let ramp : Vec Rat := (List.range J.length).map fun i => ((i + 1 : Nat) : Rat)
         let u := List.zipWith (fun wi gi => wi * (1 + gi)) w (matVec G ramp)
         .ok (combine (ncols J) J u)
+  | [atom "upgrad", sv, ne, re, u] => do
+      -- `UPGrad(pref_vector = u, norm_eps, reg_eps)` as `backward` is handed it (TjdModel/Agg/AsAggregator.lean); the SVD
+      -- kernel's value on the Jacobian is supplied by the harness
+      let s ← sv.rat?
+      pure (Tjd.Agg.upgradAgg (fun _ => s) (← ne.rat?) (← re.rat?) (← ratList? u))
+  | [atom "dualproj", sv, ne, re, u] => do
+      let s ← sv.rat?
+      pure (Tjd.Agg.dualprojAgg (fun _ => s) (← ne.rat?) (← re.rat?) (← ratList? u))
   | [atom "badlen", k] => do
       -- an aggregator returning a vector of the wrong length (for `_disunite`'s check)
       let k ← k.nat?
@@ -228,6 +237,11 @@ def handleHistory (req : SExp) : Option SExp := do
       let v ← ratList? v
       let H0 := H
       H := { grad := fun j => if j = k then some (H0.next, v) else H0.grad j, next := H0.next + 1 }
+    | list [atom "alias", k1, k2] =>  -- the user makes two parameters share ONE gradient tensor: k2.grad = k1.grad
+      let k1 ← k1.nat?
+      let k2 ← k2.nat?
+      let H0 := H
+      H := { H0 with grad := fun j => if j = k2 then H0.grad k1 else H0.grad j }
     | list (atom "backward" :: _) =>
       let tensors ← natList? (← op.field1? "tensors")
       let inputs ← natList? (← op.field1? "inputs")
